@@ -33,7 +33,8 @@ From MxlBase Require Import ListX.
 From Core Require Import Sort GenSortFacts Model Cache Query.
 From MxlGen Require Import SymRepr GenMxlGenFacts ExpectedFacts MxlGen MxlGenSpec MxlGenSem MxlGenProofs
                            Corr CorrProofs ParamNames MxlGenWitness NamingWitness
-                           Imports CallDefaults ImportsProofs CallDefaultsProofs.
+                           Imports CallDefaults ImportsProofs CallDefaultsProofs
+                           NameScope NameScopeProofs Session SessionProofs.
 Import ListNotations.
 Local Open Scope string_scope.
 Local Open Scope N_scope.
@@ -519,3 +520,152 @@ Example C11_imports_nonvacuous :
        (mkEmitted [PScipySpecial] [DNum NNan true] [DInit; DNum NNegInf false] 2 [[KRef; KNum NPosInf]])
      = [PScipySpecial; PMath; PSympyUnits].
 Proof. repeat split; vm_compute; reflexivity. Qed.
+
+(** ==== closing pass 3: what the TRANSLATOR sees of the module that defines a function =====================
+    Two further regenerated facts about src/mxlpy/meta/source_tools.py (extractor: harness/c11_extract.py
+    [_name_lookup] / [_scan_mode]), pinned at their shipped values; the other value of each is the shape of
+    a seeded change (C11-8 / C11-7) and has a regression theorem below. *)
+Theorem C11_translator_facts_pinned :
+  gen_name_lookup = NlLocalsFirst /\ gen_scan_mode = ScanAtCall.
+Proof. vm_compute. split; reflexivity. Qed.
+Print Assumptions C11_translator_facts_pinned.
+
+(** FULL (names, shipped order [ctx.symbols] first): for EVERY module (the numbers it has [G], the numbers
+    the scan finds [Gs] among them), EVERY function made of parameters, straight-line assignments and a
+    returned expression over + - *, numbers and names -- parameters and local variables named like
+    module-level numbers included --, ALL arguments: if the function is translated and the Python call
+    yields a value, the translated expression, with the parameter symbols standing for the arguments,
+    yields that value.  (This is the translation-soundness hypothesis of C11_roundtrip for this class of
+    functions, as far as the resolution of names goes.) *)
+Theorem C11_parameters_and_locals_hide_module_numbers :
+  forall (G Gs : menv) (f : pyfn) (args : list Z) (s : sx) (v : Z),
+    scan_sub Gs G ->
+    translate_fn NlLocalsFirst Gs f = Some s ->
+    py_call G f args = Some v ->
+    sx_eval (combine (pf_params f) args) s = Some v.
+Proof. exact locals_first_sound. Qed.
+Print Assumptions C11_parameters_and_locals_hide_module_numbers.
+
+(** REGRESSION (seeded change C11-8, NlModuleFirst: the module's numbers are consulted before the
+    function's own symbols).  [def sh_sub(a, b): return a - b] in a module with a = 7.0, b = 3: the emitted
+    body is 7 - 3 whatever is passed (CPython: 2 - 5 = -3, emitted: 4);
+    [def loc_mix(a, b, c): w = a * b; return w + c] in a module with w = 5.0: the computed local variable is
+    replaced by 5 (CPython: 10, emitted: 9).  The shipped order gives -3 and 10. *)
+Theorem C11_module_numbers_first_refuted :
+  (translate_fn NlModuleFirst G_ab f_sh_sub = Some (SSub (SNum 7) (SNum 3))
+   /\ py_call G_ab f_sh_sub [2%Z; 5%Z] = Some (-3)%Z
+   /\ sx_eval (combine (pf_params f_sh_sub) [2%Z; 5%Z]) (SSub (SNum 7) (SNum 3)) = Some 4%Z
+   /\ translate_fn NlLocalsFirst G_ab f_sh_sub = Some (SSub (SSym "a") (SSym "b"))
+   /\ sx_eval (combine (pf_params f_sh_sub) [2%Z; 5%Z]) (SSub (SSym "a") (SSym "b")) = Some (-3)%Z)
+  /\ (translate_fn NlModuleFirst G_w f_loc_mix = Some (SAdd (SNum 5) (SSym "c"))
+      /\ py_call G_w f_loc_mix [2%Z; 3%Z; 4%Z] = Some 10%Z
+      /\ sx_eval (combine (pf_params f_loc_mix) [2%Z; 3%Z; 4%Z]) (SAdd (SNum 5) (SSym "c")) = Some 9%Z
+      /\ (exists s, translate_fn NlLocalsFirst G_w f_loc_mix = Some s
+                    /\ sx_eval (combine (pf_params f_loc_mix) [2%Z; 3%Z; 4%Z]) s = Some 10%Z)).
+Proof. exact (conj module_first_witness module_first_local_witness). Qed.
+Print Assumptions C11_module_numbers_first_refuted.
+
+(** ... and what is left of it (why the repo's own tests do not notice): for a function NONE of whose
+    parameters and assigned names is the name of a number the scan finds, both orders translate alike; the
+    first witness is outside this guard *)
+Theorem C11_module_numbers_first_partial :
+  (forall (Gs : menv) (f : pyfn),
+      no_shadowing Gs f -> translate_fn NlModuleFirst Gs f = translate_fn NlLocalsFirst Gs f)
+  /\ ~ no_shadowing G_ab f_sh_sub.
+Proof. exact (conj module_first_partial module_first_refuted). Qed.
+Print Assumptions C11_module_numbers_first_partial.
+
+(** FULL (several generations in one process, shipped: the module is scanned at every call).  [W] = the
+    states of a module, [translate w] / [fsem w] = what the translator yields / what CPython computes for a
+    function object while the module is in state [w] (per-function soundness assumed in every state).
+    For EVERY history of rebindings and generations, whatever an earlier generation saw: a generation that
+    happens while the module is in state [wp] and succeeds rebuilds a model that behaves like the model
+    behaves THEN -- names, initial conditions, parameter values, and at every state arguments, fluxes and
+    derivatives under [fsem wp]. *)
+Theorem C11_every_generation_of_a_session :
+  forall (W E : Type) (nstr : name -> string) (fname : fnid -> string)
+         (translate : W -> fnid -> list name -> option E) (eval : E -> env -> option Z)
+         (subst_eq same_fn : E * list name -> E * list name -> bool)
+         (fsem : W -> fnid -> list Z -> option Z) (fsemN : fnid -> list Z -> option (list Z)) (SF : sort_facts),
+    (forall w f margs e, translate w f margs = Some e ->
+       forall en vs, lookups margs en = Some vs -> eval e en = fsem w f vs) ->
+    (forall q p, same_fn q p = true ->
+       forall vs, defsem E eval (fst q) (snd q) vs = defsem E eval (fst p) (snd p) vs) ->
+    forall (F : gen_facts) (h : list (event W)) (memo : option W) (cur ws wp : W) (m : model) (c : code E),
+      gf_register F = RegFresh -> gf_interchange F = IcPositional ->
+      In (ws, wp) (session_run ScanAtCall memo cur h) ->
+      UniqueIds m -> m_sur m = [] -> m_dat m = [] ->
+      generate E nstr fname (translate ws) (interchange_test (gf_interchange F) subst_eq same_fn) F m = Some c ->
+      exists m', exec_code E c = Built m'
+        /\ keys (m_var m') = keys (m_var m) /\ keys (m_par m') = keys (m_par m)
+        /\ keys (m_der m') = keys (m_der m) /\ keys (m_rxn m') = keys (m_rxn m)
+        /\ match create_cache (fsem wp) fsemN SF m, create_cache (fsem_gen E eval (c_defs c)) fsemN SF m' with
+           | Val ch, Val ch' =>
+             c_init ch' = c_init ch /\ c_base_par ch' = c_base_par ch /\ c_all_par ch' = c_all_par ch
+             /\ forall vars t,
+                  get_args (fsem_gen E eval (c_defs c)) fsemN m' ch' vars t = get_args (fsem wp) fsemN m ch vars t
+                  /\ get_fluxes (fsem_gen E eval (c_defs c)) fsemN m' ch' vars t = get_fluxes (fsem wp) fsemN m ch vars t
+                  /\ get_rhs (fsem_gen E eval (c_defs c)) fsemN m' ch' vars t = get_rhs (fsem wp) fsemN m ch vars t
+           | Err e, Err e' => e' = e
+           | _, _ => False
+           end.
+Proof. exact session_roundtrip. Qed.
+Print Assumptions C11_every_generation_of_a_session.
+
+(** the translator sees the module as it is at every generation of every history *)
+Theorem C11_scan_at_call_sees_the_module_as_it_is :
+  forall (W : Type) (memo : option W) (cur : W) (h : list (event W)),
+    session_run ScanAtCall memo cur h = map (fun w => (w, w)) (worlds_at_generations cur h).
+Proof. exact (fun W => @session_at_call W). Qed.
+Print Assumptions C11_scan_at_call_sees_the_module_as_it_is.
+
+(** REGRESSION (seeded change C11-7, ScanMemo: the scan of a module is kept for the life time of the
+    process).  [def sat2(a, b): return hsat(a, b)], hsat = a * b at the first generation, rebound to a + b,
+    second generation: the translator still sees the first module; the rebuilt derived quantity is 2 * 3 = 6,
+    the model computes 2 + 3 = 5. *)
+Theorem C11_remembered_scan_refuted :
+  session_run ScanMemo None T_mul [Generate; Rebind T_add; Generate] = [(T_mul, T_mul); (T_mul, T_add)]
+  /\ exists (m' : model) (D : fdict cexpr) (ch ch' : cache),
+       UniqueIds m_sat
+       /\ roundtrip cexpr nstr (c_fname T_mul) (c_translate T_mul) c_same_fn Fn m_sat = Built (m', D)
+       /\ create_cache (c_fsem T_add) no_fsemN gen_sort_facts m_sat = Val ch
+       /\ create_cache (fsem_gen cexpr c_eval D) no_fsemN gen_sort_facts m' = Val ch'
+       /\ get_args (c_fsem T_add) no_fsemN m_sat ch [(12, 2%Z)] 0 = Val [(0, 0%Z); (12, 2%Z); (11, 3%Z); (13, 5%Z)]
+       /\ get_args (fsem_gen cexpr c_eval D) no_fsemN m' ch' [(12, 2%Z)] 0 = Val [(0, 0%Z); (12, 2%Z); (11, 3%Z); (13, 6%Z)].
+Proof. exact session_memo_refuted. Qed.
+Print Assumptions C11_remembered_scan_refuted.
+
+(** ... and what is left of it (the first generation and any single-shot generation are right): a process
+    in which nothing is rebound after its first generation; generate - rebind - generate is outside *)
+Theorem C11_remembered_scan_partial :
+  (forall (W : Type) (cur : W) (h : list (event W)),
+      rebinds_only_before_first_generation h ->
+      session_run ScanMemo None cur h = map (fun w => (w, w)) (worlds_at_generations cur h))
+  /\ (forall (W : Type) (w0 w1 : W),
+        session_run ScanMemo None w0 [Generate; Rebind w1; Generate] = [(w0, w0); (w0, w1)]
+        /\ session_run ScanAtCall None w0 [Generate; Rebind w1; Generate] = [(w0, w0); (w1, w1)]
+        /\ ~ rebinds_only_before_first_generation [Generate; Rebind w1; @Generate W]).
+Proof. exact (conj (fun W => @session_memo_partial W) (fun W => @session_memo_stale W)). Qed.
+Print Assumptions C11_remembered_scan_partial.
+
+(** non-vacuity: the hypotheses of C11_parameters_and_locals_hide_module_numbers with a shadowing parameter;
+    the hypotheses of C11_every_generation_of_a_session for the executable instance (worlds = tables of
+    function objects) and a history with a rebinding between two generations; the shipped scan rebuilds
+    the witness model as it is (5) *)
+Example C11_translator_nonvacuous :
+  (scan_sub [("a", 7%Z)] G_ab
+   /\ (exists s, translate_fn NlLocalsFirst [("a", 7%Z)] f_sh_sub = Some s)
+   /\ py_call G_ab f_sh_sub [2%Z; 5%Z] = Some (-3)%Z
+   /\ ~ no_shadowing [("a", 7%Z)] f_sh_sub)
+  /\ ((forall (w : ftab) f margs e, c_translate w f margs = Some e ->
+         forall en vs, lookups margs en = Some vs -> c_eval e en = c_fsem w f vs)
+      /\ In (T_add, T_add) (session_run ScanAtCall None T_mul [Generate; Rebind T_add; Generate])
+      /\ UniqueIds m_sat
+      /\ generate cexpr nstr (c_fname T_add) (c_translate T_add)
+                  (interchange_test (gf_interchange Fn) c_subst_eq c_same_fn) Fn m_sat <> None)
+  /\ (session_run ScanAtCall None T_mul [Generate; Rebind T_add; Generate] = [(T_mul, T_mul); (T_add, T_add)]
+      /\ exists (m' : model) (D : fdict cexpr) (ch' : cache),
+           roundtrip cexpr nstr (c_fname T_add) (c_translate T_add) c_same_fn Fn m_sat = Built (m', D)
+           /\ create_cache (fsem_gen cexpr c_eval D) no_fsemN gen_sort_facts m' = Val ch'
+           /\ get_args (fsem_gen cexpr c_eval D) no_fsemN m' ch' [(12, 2%Z)] 0 = Val [(0, 0%Z); (12, 2%Z); (11, 3%Z); (13, 5%Z)]).
+Proof. exact (conj locals_first_nonvacuous (conj session_nonvacuous session_at_call_witness)). Qed.
